@@ -42,6 +42,9 @@ def run(tier, seed, t0):
     fscn = scenarios.generate("pubflags", 60 if tier == "quick" else 600, seed)
     # publishers that outrun the transport (tiny water marks and handle queues, slow or stalled writes)
     fscn += scenarios.generate("pressure", 80 if tier == "quick" else 1200, seed)
+    # a publish under way (publisher held up half-way) when the server makes the I/O thread write a frame of its
+    # own on that channel (CancelOk for a server cancel): known finding, see known_findings.jsonl
+    fscn += scenarios.generate("pub_cancel", 20 if tier == "quick" else 200, seed)
     ffiles, fsumm = vlib.run_sessions(PROP + "-flags", fscn, tier)
     fconsumed, fbad = vlib.validate_traces("ConnTrace", "ConnTrace.cfg", ffiles, timeout=1800, xmx="4g")
     v.absorb(fbad)
